@@ -20,7 +20,16 @@ MODULES = [
     'contracts.c47_replay',
     'contracts.c24_restricted',
     'contracts.c13_prereq',
+    'contracts.c10_messages',
+    'contracts.c02_history',
+    'contracts.c07_spawn',
+    'contracts.c06_holds',
     'contracts.c03_stall',
+    'contracts.c03_replay',
+    'contracts.c13_dependency',
+    'contracts.c02_history_replay',
+    'contracts.c04_runahead',
+    'contracts.c05_pool',
 ]
 
 EXTRA_CHECKS = {'C26': ['contracts.c26_census:check'],
@@ -30,7 +39,19 @@ EXTRA_CHECKS = {'C26': ['contracts.c26_census:check'],
                 'C32': ['contracts.c32_expiry:census'],
                 'C11': ['contracts.c11_bounded:check'],
                 'C05': ['contracts.c05_bounded:check'],
-                'C13': ['contracts.c13_bounded:check', 'contracts.c13_ops_bounded:check']}
+                'C13': ['contracts.c13_bounded:check', 'contracts.c13_ops_bounded:check',
+                        'contracts.c13_dependency_bounded:check'],
+                'C46': ['contracts.c13_dependency_bounded:check'],
+                'C03': ['contracts.c03_replay:bounded_unsat'],
+                # bounded stand-ins (contracts checked at run time over an enumerated scope; level
+                # "exploration", never counted as proof)
+                'C23': ['contracts.c23_bounded:check'],
+                'C35': ['contracts.c35_bounded:check'],
+                'C37': ['contracts.c37_bounded:check'],
+                'C39': ['contracts.c39_bounded:check'],
+                'C40': ['contracts.c40_bounded:check'],
+                'C42': ['contracts.c42_bounded:check'],
+                'C48': ['contracts.c48_bounded:check']}
 
 EXPECTED_MIN_OBLIGATIONS = {'C18': 150}
 
